@@ -31,12 +31,12 @@ export function pathString(path) {
   return s
 }
 
-/** Enumerate settable paths of D (existing containers only), to depth 3. */
+/** Enumerate settable paths of D (existing containers only), to depth 4. */
 export function settablePaths(D, fields) {
   const out = []
   const rec = (v, path, depth) => {
     out.push(path)
-    if (depth >= 3 || v === null || typeof v !== 'object') return
+    if (depth >= 4 || v === null || typeof v !== 'object') return
     if (Array.isArray(v)) { for (let i = 0; i < Math.min(v.length, 3); i++) rec(v[i], [...path, i], depth + 1) }
     else for (const k of Object.keys(v).slice(0, 4)) rec(v[k], [...path, k], depth + 1)
   }
@@ -45,10 +45,15 @@ export function settablePaths(D, fields) {
 }
 
 /** Draw one op for the current data D. */
-export function genOp(rng, D, fields, listFields = ['list', 'arr']) {
+export function genOp(rng, D, fields, listFields = ['list', 'arr'], prefer = []) {
   const r = rng.int(100)
   if (r < 30) {
-    const paths = settablePaths(D, fields).filter((p) => containerOk(D, p))
+    let paths = settablePaths(D, fields).filter((p) => containerOk(D, p))
+    if (prefer.length && rng.bool(0.6)) {
+      // deep paths below the fields that structural expressions read
+      const deep = paths.filter((p) => prefer.includes(p[0]) && p.length >= 2)
+      if (deep.length) paths = deep
+    }
     const path = rng.pick(paths)
     return { op: 'set', path, vseed: rng.u32(), item: path[0] === 'list' && path.length === 2 }
   }
